@@ -135,6 +135,11 @@ def check(ctx):
     vnr = model.func("apischema.recursion.RecursiveConversionsVisitor.visit_not_recursive")
     ctx.check("super().visit(tp)" in norm(vnr.node), "C12.R3", vnr.qualname, vnr.node.body[0], "visit_not_recursive base implementation must be super().visit(tp)", vnr, vnr.node, detail="super().visit(tp)")
 
+    # ---------------- R6 scoped conversion context
+    from .common_scoped import scoped_state_rule
+    ctx.rule("C12.R6", "the current dynamic conversion (self._conversion) and other traversal state are changed only inside `with context_setter(self)`", floor=2)
+    scoped_state_rule(ctx, "C12.R6", lambda q: q.startswith(("apischema.conversions", "apischema.recursion", "apischema.deserialization", "apischema.serialization", "apischema.json_schema.conversions_resolver")))
+
     # ---------------- R4
     ctx.rule("C12.R4", "registration order: deserializers are appended; serializers are found along the MRO in order", floor=3)
     ad = model.func("apischema.conversions.converters._add_deserializer")
@@ -181,4 +186,5 @@ def mutants(mb):
     mb.add_text("deserializer-prepended", CO, "        _deserializers[target] = *_deserializers[target], conversion", "        _deserializers[target] = conversion, *_deserializers[target]", "C12.R4", "_add_deserializer")
     mb.add_text("serializer-mro-reversed", CO, '    for sub_cls in getattr(tp, "__mro__", [tp]):\n        if sub_cls in _serializers:', '    for sub_cls in reversed(getattr(tp, "__mro__", [tp])):\n        if sub_cls in _serializers:', "C12.R4", "default_serialization")
     mb.add_text("valueerror-always-caught", M, "                if not alternative.value_error:\n                    raise\n", "", "C12.R5", "ConversionUnionMethod")
+    mb.add_text("conversion-not-restored", CVp, "        with context_setter(self):\n            self._conversion = resolve_any_conversion(conversion) or None\n            yield", "        self._conversion = resolve_any_conversion(conversion) or None\n        yield", "C12.R6", "_replace_conversion")
     mb.add_text("neg-guard-rewritten", CVp, "        if not dynamic and is_subclass(tp, Collection) and not is_subclass(tp, str):", "        if not (dynamic or is_subclass(tp, str)) and is_subclass(tp, Collection):", negative=True)
